@@ -161,6 +161,12 @@ const BF3_OPTIONS: &[&str] = &[
     "~script,~image", "1p", "3p", "script,3p", "image",
     // the same two domains under every combination of signs
     "domain=example.com|tracker.co.uk", "domain=example.com|~tracker.co.uk", "domain=~example.com|tracker.co.uk", "domain=~example.com|~tracker.co.uk",
+    // long lists of equal length that differ in one entry (whatever digest of the list goes into the
+    // rule id must tell them apart)
+    "domain=d01.com|d02.com|d03.com|d04.com|d05.com|d06.com|d07.com|d08.com|d09.com|d10.com|d11.com|d12.com|example.com",
+    "domain=d01.com|d02.com|d03.com|d04.com|d05.com|d06.com|d07.com|d08.com|d09.com|d10.com|d11.com|d12.com|unrelated.org",
+    "domain=~d01.com|~d02.com|~d03.com|~d04.com|~d05.com|~d06.com|~d07.com|~d08.com|~d09.com|~d10.com|~d11.com|~d12.com|~ads.net",
+    "domain=~d01.com|~d02.com|~d03.com|~d04.com|~d05.com|~d06.com|~d07.com|~d08.com|~d09.com|~d10.com|~d11.com|~d12.com|~a.ads.net",
 ];
 
 /// Alias normalisation, written from the option documentation (not from /repo).
